@@ -23,4 +23,6 @@ def run(tier, seed):
     from contracts import fn_handover as H
     run_contracts(pack, [(H.genbase_v_numeric('C05'), None, H.replay_genbase_v_numeric)])
     C18.run(tier, seed, prefix='C05', want=('SS',), pack=pack)
+    from contracts import fn_handover as H2
+    H2.bounded_flat_run(pack, 'C05', tier)
     return pack.finish()
